@@ -139,6 +139,7 @@ pub struct Facts {
   pub norepeat_other_down: u32,
   pub window_press_inside: u32,
   pub special_fired: u32,
+  pub norepeat_fired: u32,
   pub ignored_events: u32,
   pub two_in_effect: u32,
   pub max_in_effect: u32,
@@ -672,9 +673,12 @@ impl Mon {
           facts.ignored_events += 1;
         }
       }
-      if let ResultingRepeat::Repeating { .. } = repeat {
-        facts.special_fired += 1;
-      }
+    }
+    if let ResultingRepeat::Repeating { .. } = repeat {
+      facts.special_fired += 1;
+    }
+    if (nonabs && fires_norepeat_model) || (!nonabs && (matches!(repeat, ResultingRepeat::Repeating { .. }) || pressed_tags.iter().any(|(_, o)| is_norepeat(info.m(*o))))) {
+      facts.norepeat_fired += 1;
     }
 
     // ---- facts for the evidence ----
